@@ -11,6 +11,7 @@ import (
 	abci "github.com/tendermint/tendermint/abci/types"
 	tmproto "github.com/tendermint/tendermint/proto/tendermint/types"
 
+	"github.com/cosmos/cosmos-sdk/simapp/helpers"
 	sdk "github.com/cosmos/cosmos-sdk/types"
 	govtypes "github.com/cosmos/cosmos-sdk/x/gov/types"
 
@@ -221,4 +222,21 @@ func (w *World) consOf(typ string, rev, height uint64, salt byte) exported.Conse
 		return &ethtypes.ConsensusState{Timestamp: w.blockUnix() - uint64(salt), Height: clienttypes.NewHeight(rev, height), Root: rep(salt|1, 32)}
 	}
 	return &tsstypes.ConsensusState{}
+}
+
+// deliver signs msgs with the chain's sender key and runs them through BaseApp.Deliver in the open block, then
+// commits the block (no testing.T assertions: a rejected transaction is an error value)
+func (w *World) deliver(c *xibctesting.TestChain, msgs ...sdk.Msg) (*sdk.Result, error) {
+	acc := c.App.AccountKeeper.GetAccount(c.GetContext(), c.SenderAcc)
+	tx, err := helpers.GenTx(c.TxConfig, msgs, sdk.Coins{sdk.NewInt64Coin(sdk.DefaultBondDenom, 0)}, helpers.DefaultGenTxGas*4, c.ChainID,
+		[]uint64{acc.GetAccountNumber()}, []uint64{acc.GetSequence()}, c.SenderPrivKey)
+	if err != nil {
+		return nil, err
+	}
+	_, res, err := c.App.BaseApp.Deliver(c.TxConfig.TxEncoder(), tx)
+	w.commit(c)
+	if err != nil {
+		return nil, err
+	}
+	return res, nil
 }
